@@ -10,5 +10,15 @@ git -C /repo apply $P 2>/dev/null || git -C /repo apply -3 $P || { echo "patch d
 OUT=$D/detect-$C.log
 ( ./check $C --tier $T ) > $OUT 2>&1; RC=$?
 echo "exit=$RC" >> $OUT
+F=$(grep -o "replay=[^ ]*" $OUT | head -1 | cut -d= -f2)
+if [ -n "$F" ] && [ -f "$F" ]; then
+  python3 - "$F" >> $OUT <<'PY'
+import json, sys
+d = json.load(open(sys.argv[1]))
+print('first replay kind:', d.get('kind'))
+print('first replay what:', str(d.get('what'))[:700])
+print('first replay model verdict:', str(d.get('model_verdict'))[:400])
+PY
+fi
 git -C /repo reset -q --hard HEAD
-tail -5 $OUT
+grep -v '^first replay model' $OUT | tail -6 | cut -c1-400
